@@ -49,6 +49,10 @@ def w07(rep, wd, dims):
     # 0-D
     for nm, sym in OPS[:2]:
         asserts.append((0, "array0_array0", nm, "has_%s<multi::array<Tracked, 0>, multi::array<Tracked, 0>>::value" % nm))
+    # 0-D ordering (through the 0-D member operator<): array / array and array_ref / array_ref
+    for cn, ta, tb in combos(0):
+        if cn in ("array_array", "ref_ref"):
+            asserts.append((0, cn, "lt", "has_lt<%s, %s>::value" % (ta, tb)))
     for i, (D, cn, nm, cond) in enumerate(asserts):
         lines.append('static_assert(%s, "W07 %d");' % (cond, i))
     tu = os.path.join(wd, "w07.cpp")
@@ -81,15 +85,15 @@ def w07(rep, wd, dims):
 def gen_driver(wd, dims, have):
     lines = [owning.TYPES]
     fns = []
-    for D in dims:
+    for D in (0,) + tuple(dims):
         for cn, ta, tb in combos(D):
             for nm, sym in OPS:
-                if (D, cn, nm) not in have:
-                    continue
+                if (D, cn, nm) not in have or (D == 0 and nm != "lt"):
+                    continue          # D = 0: only the ordering primitive is examined (== / != of 0-D arrays do not compile: known finding)
                 fn = "cmp_%s_D%d_%s" % (nm, D, cn)
                 lines.append('extern "C" bool %s(%s const& a, %s const& b) { return a %s b; }' % (fn, ta, tb, sym))
                 fns.append((fn, "container", D, cn, nm))
-        for nm, sym in OPS[:2]:
+        for nm, sym in (OPS[:2] if D > 0 else ()):
             fn = "cmp_%s_D%d_elements" % (nm, D)
             lines.append('extern "C" bool %s(multi::subarray<Tracked, %d> const& a, multi::subarray<Tracked, %d> const& b) { return a.elements() %s b.elements(); }' % (fn, D, D, sym))
             fns.append((fn, "container", D, "elements", nm))
@@ -206,6 +210,23 @@ def run(tier):
         sigs = sorted({a[1] for a in formula.atoms_of(trees[fn]) if isinstance(a, tuple) and len(a) == 3 and a[0] == "call" and "lexicographical_compare" in a[1]})
         if not sigs:
             rep.extra.setdefault("R07.lex_no_primitive", []).append(tag)
+            continue
+        # operand order: the primitive ranges over the left operand first (a < b is lexicographical_compare(a.begin(), a.end(), b.begin(), b.end()))
+        okey = "R07.lexorder(%s)" % tag
+        wrong = []
+        for a in formula.atoms_of(trees[fn]):
+            if isinstance(a, tuple) and len(a) == 3 and a[0] == "call" and "lexicographical_compare" in a[1] and len(a[2]) >= 5:
+                r = [repr(x) for x in a[2][1:5]]
+                left = all("('param', 0)" in x and "('param', 1)" not in x for x in r[:2])
+                right = all("('param', 1)" in x and "('param', 0)" not in x for x in r[2:])
+                if not (left and right):
+                    wrong.append([("b" if "('param', 1)" in x else "a") for x in r])
+        if wrong:
+            rep.violated("R07.lexorder(D%s:%s)" % (">1" if D > 1 else "=%d" % D, cn), "R07.lex", "a < b (%s) passes its operands to the lexicographic comparison in the order %s instead of "
+                         "(a, a, b, b): the result is b < a" % (tag, wrong[0]), dict(order=wrong[0]))
+        else:
+            rep.ok(okey, "R07.lex", None)
+        if D == 0:
             continue
         nrel += 1
         key = "R07.lex(%s)" % tag
